@@ -2,7 +2,7 @@
    Statements only; every proof is `exact <lemma>`.                                  *)
 From Coq Require Import ZArith NArith List Bool.
 From XV Require Import core.Value model.Hash model.Edits model.Serial model.Seal
-  proofs.Hash_lemmas proofs.Serial_lemmas.
+  proofs.Hash_lemmas proofs.Serial_lemmas proofs.Walk_reach_lemmas.
 Import ListNotations.
 
 (* one definition, loaded back, is the node it was written from: same class, meta flag (also an
@@ -55,3 +55,13 @@ Theorem C12_init_tasks_dropped_refuted :
              option_map n_init (nth_error h' 1) <> option_map n_init (nth_error c12_heap 1).
 Proof. exact init_tasks_dropped_prefix. Qed.
 Print Assumptions C12_init_tasks_dropped_refuted.
+
+(* ... and so does the FULL identifier (job directory name) of every node: the pre-task collection
+   walk visits exactly the reachable configurations, which reloading preserves                  *)
+Theorem C12_reload_full_identifier : forall cs H h fuel r h',
+  wf_heap h -> fields_nodup h -> (forall c, In c cs -> NoDup (map a_name (c_args c))) ->
+  (forall n, complete_at cs h n) ->
+  reload cs true true h fuel r = Some h' ->
+  forall f n d, n < length h -> full_pure H cs h f n = Ok d -> full_pure H cs h' f n = Ok d.
+Proof. exact reload_full_ident. Qed.
+Print Assumptions C12_reload_full_identifier.
